@@ -110,6 +110,9 @@ def classify(gi, m, prev, obs, exc):
             return False
         if trans(m) and has_exp(gi) and type(exc).__name__ in ("IndexError", "NotImplementedError", "MatrixError", "NonSquareMatrixError", "ValueError", "TypeError"):
             return "D19:sympy-refuses-function-of-exponential"
+        # the same refusal over a fractional Power of a gate with generic float entries: sympy's Jordan-form based root / exponential meets a numerically singular eigenvector system
+        if trans(m) and gi is inner and isinstance(inner, _gates.Power) and abs(inner.exponent - round(inner.exponent)) > 1e-12 and type(exc).__name__ in ("NonInvertibleMatrixError", "MatrixError"):
+            return "D19:sympy-refuses-function-of-fractional-power"
         return "exception:" + type(exc).__name__
     if m[0] == "dagger" and isinstance(inner, _gates.Power) and abs(inner.exponent - round(inner.exponent)) > 1e-12:
         # what Power.dagger returns: the power of the dagger.  D15 iff observed is exactly that root of the wrapped gate's adjoint and differs from the adjoint
@@ -283,6 +286,7 @@ def run(run):
               {"base": G("CNOT"), "chain": [["exp"], ["exp"]]}, {"base": G("SWAP"), "chain": [["exp"], ["power", "1/2"]]}, {"base": G("T"), "chain": [["exp"]]},
               {"base": G("Z"), "chain": [["power", "1/2"], ["power", "1/2"]]}, {"base": G("S"), "chain": [["power", "1/2"], ["exp"]]},
               # representatives of D32 (a negative integer power over a root, zero pivot) and their healthy neighbours
+              {"base": G("custom2p", 0.3, 0.7), "chain": [["power", "1/2"], ["power", "1/2"]], "maxq": 2}, {"base": G("custom2p", 0.3, 0.7), "chain": [["power", "1/2"], ["exp"]], "maxq": 2},
               {"base": G("ISWAP"), "chain": [["power", "1/2"], ["power", 2], ["power", -1]], "maxq": 4}, {"base": G("ISWAP"), "chain": [["power", "1/3"], ["power", 3], ["power", -1]], "maxq": 4},
               {"base": G("SWAP"), "chain": [["power", "1/2"], ["power", 2], ["power", -1]], "maxq": 4}, {"base": G("X"), "chain": [["power", "1/2"], ["power", 2], ["power", -1]], "maxq": 4},
               {"base": G("ISWAP"), "chain": [["power", "1/2"], ["power", -1]], "maxq": 4}, {"base": G("ISWAP"), "chain": [["power", "1/2"], ["power", 2], ["power", -2]], "maxq": 4}]
